@@ -4,3 +4,5 @@ import Liquid.Scan
 import Liquid.Driver
 import Liquid.Value
 import Liquid.Utf8
+import Liquid.Unicode
+import Liquid.Filters.Str
